@@ -16,6 +16,7 @@ TRUSTED_BASE = [
     "modelled by hand, validated differentially only: std::path (components/push/Display/extension), serde derive behaviour on the canonical value tree, HashMap iteration as an arbitrary order, {:X}/{:08X} formatting, ASCII case mapping",
     "Slinkyv.Ld (lean/Slinkyv/Ld.lean): a hand-written Lean semantics of GNU ld for the statements slinky writes; the image-level theorems are about this model of the linker; it is compared with GNU ld 2.40 (-m elf_i386) on every linked case of the run (all symbol values, section addresses/sizes, input-section addresses; evidence field ldsem_fidelity); outside it: segments without allocatable sections, orphans, output sections that end up empty without a symbol, PROVIDE semantics, 64-bit arithmetic, ld.lld",
     "Slinkyv.Ld2 (lean/Slinkyv/Ld2.lean): placement order (`takes`, tied to Ld.exec by the theorem C11.exec_takes) and the two-step link of partial mode (`relink`, `twoStep`): that an output section of `ld -r` becomes one section of the partial object holding its contents in placement order, that empty ones are absent and that the final link moves such a section as one block is validated against real two-step links on every linked C11 case (twostep_model_fidelity), not proved",
+    "tools/extract_tables.py: a regex-based translator of three table-like parts of the source (settings defaults, naming format strings, serde field lists) into lean/Src/Tables.lean, regenerated on every run; Props/C05Src, C08Src, C16Src prove the model's tables equal to it; the translator is trusted to read those constructs faithfully (an unknown construct yields ill-typed Lean, i.e. a broken obligation, not a silent pass)",
     "not modelled: serde_yaml's scanner (bytes -> tree), clap, std::fs beyond create-parents/truncate/write",
     "the harness (harness/src/main.rs), ./check (python) and the Lean script parser are ordinary programs",
 ]
@@ -42,6 +43,13 @@ def build_harness(need_cli=False):
         if rc != 0:
             return False, err[-4000:]
     return True, ""
+
+
+def regen_tables():
+    """the translator half of the tie: lean/Src/Tables.lean is rewritten from /repo's current sources
+    (tools/extract_tables.py); Props/C05Src, C08Src, C16Src are then re-checked against it by the proof audit"""
+    rc, out, err = sh([sys.executable, os.path.join(VERIF, "tools", "extract_tables.py"), "/repo", os.path.join(LEAN, "Src", "Tables.lean")])
+    return rc == 0, (out + err).strip()
 
 
 def build_lean(targets):
